@@ -2179,10 +2179,16 @@ class SQLCompiler(Compiled):
 
             if parameter in self.literal_execute_params:
                 if escaped_name not in replacement_expressions:
+                    # the given parameters are keyed by escaped or by
+                    # unescaped name depending on the caller
                     replacement_expressions[escaped_name] = (
                         self.render_literal_bindparam(
                             parameter,
-                            render_literal_value=parameters.pop(escaped_name),
+                            render_literal_value=parameters.pop(
+                                escaped_name
+                                if escaped_name in parameters
+                                else name
+                            ),
                         )
                     )
                 continue
@@ -2203,7 +2209,9 @@ class SQLCompiler(Compiled):
                     # into the given dictionary.   default dialect will
                     # use these param names directly as they will not be
                     # in the escaped_bind_names dictionary.
-                    values = parameters.pop(name)
+                    values = parameters.pop(
+                        name if name in parameters else escaped_name
+                    )
 
                     leep_res = self._literal_execute_expanding_parameter(
                         escaped_name, parameter, values, taken_names
